@@ -133,3 +133,11 @@ impl Iterator for Interpreter {
         self.next_impl()
     }
 }
+
+/// Verification hooks (compiled only with `--cfg bsv_verif`): re-exports of crate-private items that the Kani
+/// harness crate and the replay probe of /verif call directly. Adds no behaviour.
+#[cfg(bsv_verif)]
+pub mod verif_hooks {
+    pub use super::errors::InterpreterError;
+    pub use super::stack_trait::{to_bigint, ScriptStack};
+}
